@@ -570,6 +570,15 @@ func (g *Gen) genReq(n *Node) {
 
 // GenNode generates a schema tree of the given remaining depth.
 func (g *Gen) GenNode(depth int, root bool) *Node {
+	if !root && g.Cfg.Mode == "validate" && g.p(g.Cfg.PPre, "pre") {
+		// Validate: Preprocess[*string, string] in front of a string schema
+		n := &Node{Kind: KPre, PreFn: pick(g, []string{"vtrim", "vmaybe", "verror", "vmaybe"}, "vprefn")}
+		saved := g.Cfg
+		g.Cfg.PPre, g.Cfg.PCoercer, g.Cfg.LeafKinds = 0, 0, []string{KString}
+		n.Elem = g.GenNode(0, false)
+		g.Cfg = saved
+		return n
+	}
 	if !root && g.Cfg.Mode == "parse" && g.p(g.Cfg.PPre, "pre") {
 		n := &Node{Kind: KPre, PreFn: pick(g, []string{"trim", "maybe", "split", "error", "any", "trim", "maybe"}, "prefn")}
 		saved := g.Cfg
@@ -906,8 +915,14 @@ func (g *Gen) GenTyped(n *Node) Val {
 		if n.PreFn == "trim" && g.p(0.5, "pad") {
 			v = Str("  " + v.S + " ")
 		}
-		if n.PreFn == "maybe" && g.p(0.3, "bad") {
+		if (n.PreFn == "maybe" || n.PreFn == "vmaybe") && g.p(0.3, "bad") {
 			v = Str(v.S + "bad")
+		}
+		if n.PreFn == "vtrim" && g.p(0.5, "vpad") {
+			v = Str(" " + v.S + "  ")
+		}
+		if g.Cfg.Mode == "validate" {
+			return v
 		}
 		if g.p(0.1, "wrongtype") {
 			return Int(7) // not the F the function expects
